@@ -118,7 +118,7 @@ def run(ctx):
             ctx.count(f"build-raises:{fam}:{type(exc).__name__}")
             sig = f"build-raises:{fam}:{type(exc).__name__}"
             if sig_empty:
-                sig = "build:operator-normal-orders-to-constant"
+                sig = "build:operator-normal-orders-to-constant:raises"
             ctx.disagree(sig, f"build_hamiltonian raised {type(exc).__name__}: {exc}", desc)
             continue
         cls = type(ham).__name__
